@@ -33,11 +33,21 @@ def run_c19(tier):
     rounds = 2 if tier == "quick" else 3
     for g in range(rounds):
         tool = os.path.join(wd, "tool%d" % g)
-        core.sh(["go", "build", "-o", tool, "."], cwd=tree)
+        if g == 0:
+            core.sh(["go", "build", "-o", tool, "."], cwd=tree)        # the working tree itself must build: infrastructure otherwise
+        else:
+            pb = core.sh(["go", "build", "-o", tool, "."], cwd=tree, check=False)
+            if pb.returncode != 0:
+                v.disagree("regenerated-wiring-does-not-build", {"gen": g}, {"compiler": pb.stdout[-800:]})
+                break
         trace.append({"ev": "build", "gen": g})
         for rep in range(1 if tier == "quick" else 2):
+            # `make self-compile` writes over the checked-in file: regenerate IN PLACE, then keep a copy
+            inplace = os.path.join(tree, "internal/gontainer/gontainer.go")
             out = os.path.join(wd, "gen%d_%d.go" % (g, rep))
-            p = core.sh([tool, "build"] + YAML_ARGS + ["-o", out, "-q"], cwd=tree, check=False)
+            p = core.sh([tool, "build"] + YAML_ARGS + ["-o", "internal/gontainer/gontainer.go", "-q"], cwd=tree, check=False)
+            if p.returncode == 0:
+                shutil.copy(inplace, out)
             if p.returncode != 0 or not os.path.exists(out):
                 v.disagree("regeneration-fails", {"gen": g}, {"rc": p.returncode, "out": p.stdout[-600:]})
                 break
